@@ -2,6 +2,7 @@ import Req.Driver.Proto
 import Req.Client.Compress
 import Req.Client.CompressLegacy
 import Req.Client.CompressReader
+import Req.Client.CompressAttempts
 /-! Driver lanes of C14. -/
 namespace Req.Driver.L.C14
 open Req.Proto Req.Compress
@@ -55,6 +56,32 @@ def exchange (legacy : Bool) : List String → String
       let o := if legacy then Legacy.process s c auto hb r else process s c auto hb r
       showOut (wireAcceptEncoding (addGzip s c) c) o wire gz dfl br zs
     | _, _, _, _, _, _, _, _, _ => "bad-op"
+  | _ => "bad-op"
+
+
+/-- `c14seq <site> <dc> <auto> <method> <accept-encoding> <range> <hasBody> <header> <ContentLength>
+<wire> <gzip> <deflate> <br> <zstd> <k> <deliverAll>`: ONE request object attempted `k` times
+(transparent retries, or re-sent by the caller); every attempt is answered with the same
+response. Answer: per attempt what the origin saw and — for the delivered ones (all of them, or
+only the last) — what the caller received, then the `Accept-Encoding` left in the request's own
+header. The header state is threaded through `attempts`. -/
+def sequence : List String → String
+  | [site, dc, auto, method, ae, range, hasBody, hdr, cl, wire, gz, dfl, br, zs, k, all] =>
+    match parseSite site, parseBool dc, parseBool auto, decodeHex method, decodeHex ae,
+        decodeHex range, parseBool hasBody, (decodeList hdr).bind pairs, decodeInt cl, k.toNat?,
+        parseBool all with
+    | some s, some dc, some auto, some m, some ae, some rg, some hb, some h, some n, some k, some all =>
+      let h0 : Carried := ⟨ae, rg⟩
+      let run := attempts s dc m k h0
+      let r : Resp := ⟨h, n, false⟩
+      let isHead := (h0.cfg dc m).isHead
+      let render (i : Nat) (sent : Sent) : String :=
+        if all || i + 1 == k then
+          showOut sent.wireAE (processSent s sent auto isHead hb r) wire gz dfl br zs
+        else "ae=" ++ (match sent.wireAE with | some v => encodeHex v | none => "none")
+      let parts := (List.range run.1.length).zip run.1 |>.map fun p => render p.1 p.2
+      " ## ".intercalate parts ++ " ## carried=" ++ encodeHex run.2.acceptEncoding
+    | _, _, _, _, _, _, _, _, _, _, _ => "bad-op"
   | _ => "bad-op"
 
 /-! ### reader scripts -/
@@ -126,6 +153,7 @@ def lanes : List (String × (List String → String)) := [
   ("c14select", laneSelect),
   ("c14x", exchange false),
   ("c14xlegacy", exchange true),
+  ("c14seq", sequence),
   ("c14reader", laneReader)
 ]
 
